@@ -237,3 +237,60 @@ Proof.
   apply andb_true_iff in H as [Ht Hl]. cbn [mapM map]. rewrite (py_int_str_dec _ Ht). cbn [obind].
   now rewrite (IH Hl).
 Qed.
+
+(* ------------------------------------------------ ASCII characters of a decoded name *)
+(* a code point below 128 in the decoded text is that very byte of the input: multi-byte sequences
+   and escaped bytes only yield code points >= 128 *)
+Lemma dec_contains_n c : 0 <= c < 128 ->
+  forall k n, (length n <= k)%nat -> contains c (dec n) = contains c n.
+Proof.
+  intros Hc. induction k as [|k IH]; intros n Hn.
+  - destruct n; [reflexivity|cbn [length] in Hn; lia].
+  - destruct n as [|b0 r0]; [reflexivity|]. cbn [length] in Hn.
+    assert (IH' : forall t, (length t <= length r0)%nat -> contains c (dec t) = contains c t)
+      by (intros t Ht; apply IH; lia).
+    rewrite dec_eq. destruct (b0 <? 128) eqn:E0.
+    { rewrite !contains_cons, IH' by lia. reflexivity. }
+    assert (Hb0 : (c =? b0) = false) by lia.
+    assert (Esc : contains c (esc b0 :: dec r0) = contains c (b0 :: r0)).
+    { rewrite !contains_cons, IH' by lia. rewrite Hb0. unfold esc. assert (c =? 56320 + b0 = false) as -> by lia.
+      reflexivity. }
+    destruct r0 as [|b1 r1]; [exact Esc|].
+    destruct (ok2 b0 b1) eqn:E2.
+    { rewrite !contains_cons, IH' by (cbn [length]; lia). rewrite Hb0.
+      unfold ok2, cont, cp2 in *.
+      assert (c =? (b0 - 192) * 64 + (b1 - 128) = false) as -> by lia.
+      assert (c =? b1 = false) as -> by lia. reflexivity. }
+    destruct r1 as [|b2 r2]; [exact Esc|].
+    destruct (ok3 b0 b1 b2) eqn:E3.
+    { rewrite !contains_cons, IH' by (cbn [length]; lia). rewrite Hb0.
+      unfold ok3, cont, cp3 in *.
+      assert (c =? (b0 - 224) * 4096 + (b1 - 128) * 64 + (b2 - 128) = false) as -> by lia.
+      assert (c =? b1 = false) as -> by lia. assert (c =? b2 = false) as -> by lia. reflexivity. }
+    destruct r2 as [|b3 r3]; [exact Esc|].
+    destruct (ok4 b0 b1 b2 b3) eqn:E4; [|exact Esc].
+    rewrite !contains_cons, IH' by (cbn [length]; lia). rewrite Hb0.
+    unfold ok4, cont, cp4 in *.
+    assert (c =? (b0 - 240) * 262144 + (b1 - 128) * 4096 + (b2 - 128) * 64 + (b3 - 128) = false) as -> by lia.
+    assert (c =? b1 = false) as -> by lia. assert (c =? b2 = false) as -> by lia.
+    assert (c =? b3 = false) as -> by lia. reflexivity.
+Qed.
+
+Lemma dec_contains c n : 0 <= c < 128 -> contains c (dec n) = contains c n.
+Proof. intros Hc. exact (dec_contains_n c Hc (length n) n (le_n _)). Qed.
+
+Lemma dec_nonempty n : n <> [] -> dec n <> [].
+Proof.
+  destruct n as [|b0 r0]; [congruence|]. intros _. rewrite dec_eq.
+  destruct (b0 <? 128); [discriminate|].
+  destruct r0 as [|b1 r1]; [discriminate|]. destruct (ok2 b0 b1); [discriminate|].
+  destruct r1 as [|b2 r2]; [discriminate|]. destruct (ok3 b0 b1 b2); [discriminate|].
+  destruct r2 as [|b3 r3]; [discriminate|]. destruct (ok4 b0 b1 b2 b3); discriminate.
+Qed.
+
+Lemma gno_ws_sp t : contains 32 t = false -> gno_ws is_sp t = true.
+Proof.
+  induction t as [|c t IH]; [reflexivity|]. rewrite contains_cons. intros H.
+  apply orb_false_iff in H as [Hc Ht]. cbn [gno_ws forallb]. unfold is_sp at 1.
+  rewrite Z.eqb_sym, Hc. cbn [negb andb]. now apply IH.
+Qed.
